@@ -2,7 +2,9 @@
 import re
 from lib import fw
 
-MODULES = ["SunriseVerif.Props.C01", "SunriseVerif.Props.C01DA", "SunriseVerif.Props.C01Gauge", "SunriseVerif.Props.C01Proposal", "SunriseVerif.Props.ParamGuards", "SunriseVerif.Props.ParamGuardsDA"]
+MODULES = ["SunriseVerif.Props.C01", "SunriseVerif.Props.C01DA", "SunriseVerif.Props.C01Gauge", "SunriseVerif.Props.C01Proposal", "SunriseVerif.Props.ParamGuards", "SunriseVerif.Props.ParamGuardsDA",
+           # the decimal library's range assertions: no range panic of the pool arithmetic inside explicit input boxes
+           "SunriseVerif.Props.C15Range"]
 
 
 def feats(f):
